@@ -573,7 +573,7 @@ def text_bytes(s):
 
 def gen_cases(rng, quick):
     cases = []
-    n_small = 9000 if quick else 70000
+    n_small = 9000 if quick else 300000
     # ---- structured: valid encodings and single / double mutations of them
     for i in range(n_small):
         dim = rng.choice([2, 2, 2, 3, 3, 4])
@@ -897,6 +897,8 @@ def run(ctx):
             if n_deep > (28 if quick else 60):
                 skipped['predicted-deep'] += 1; continue
         run_idx.append(i)
+    # a single request above 2 GiB or 6 GiB resident is a failure of the reader (it is reported and the process dies) — not a reason to thrash the machine
+    os.environ['ASAN_OPTIONS'] = 'max_allocation_size_mb=2048:hard_rss_limit_mb=6000:detect_leaks=1'
     t0 = time.time()
     iout = run_cases([hexe], [lines[i] for i in run_idx], tmo=120 if quick else 300, workers=6)
     ctx.log('implementation (asan): %d cases in %.1fs' % (len(run_idx), time.time() - t0))
